@@ -13,6 +13,7 @@ import tflsum
 import vlib
 
 FAMS = ["conv_chain", "conv_chain_big", "single", "diamond", "mixed_cpu", "lut_heavy", "conv_chain_big", "single", "lut_mixed"]
+LUT_FAMS = ["single:softmax", "lut_mixed", "lut_heavy", "single:softmax", "single:logistic", "lut_mixed", "single:hswish", "single:lrelu"]
 ELEM = {"int8": 1, "uint8": 1, "int16": 2, "int32": 4, "float32": 4, "int64": 8, "bool": 1, "float16": 2}
 
 
@@ -167,6 +168,9 @@ def run(tier):
     okx, xlog = vlib.build_extraction()
     n = 64 if tier == "quick" else 1600
     jobs = compiles.corpus_jobs() + compiles.plan(FAMS, n, vlib.seed(), tag="d2", capture=True)
+    # look-up tables of every shape Vela creates (8-bit, 16-bit interpolating, the 32-bit softmax exponent table) and
+    # their slot bookkeeping: always present, whatever the shared plan drew
+    jobs += compiles.plan(LUT_FAMS, 24 if tier == "quick" else 400, vlib.seed(), tag="c03lut", capture=True)
     results = compiles.run_all(jobs, timeout=900)
     cases, meta = [], []
     unsupported = collections.Counter()
